@@ -22,6 +22,7 @@ RULE = (
     ">= 2 siblings or depth >= 3; distinct = distinct spec."
 )
 ASSUMPTIONS = [
+    "queries that traverse a whole branch (calc_height, count_descendants, iteration) are recursion-limited in nutree; chains deeper than the recursion limit are only probed with the ancestry queries (part deep-chain)",
     "Tree.children / Node.children are the trusted accessors the reference is computed from",
     "get_common_ancestor(a, b) may return a or b themselves (docstring: 'nearest node that contains self and other')",
 ]
@@ -250,6 +251,69 @@ def hyp_cases(draw, tier):
     return {"spec": spec}
 
 
+def run_deep_chain(case, rec):
+    """A chain deeper than the interpreter's recursion limit: the ancestry queries (which walk parent links)
+    must still answer; queries that traverse the whole branch (calc_height, count_descendants, iteration) are
+    recursion-limited in nutree and are not called here."""
+    from nutree import Tree
+
+    depth, width = case["depth"], case["width"]
+    tree = Tree("deep")
+    chain = []
+    parent = tree
+    for i in range(depth):
+        n = parent.add(f"n{i}")
+        for j in range(width):
+            parent.add(f"s{i}_{j}")
+        chain.append(n)
+        parent = n
+    rec.nt(True)
+    ev = 0
+    for k in case["probe"]:
+        n = chain[k % depth]
+        d = (k % depth) + 1
+
+        def q(name, fn, exp):
+            nonlocal ev
+            ev += 1
+            try:
+                got = fn()
+            except Exception as e:  # noqa: BLE001
+                rec.fail(f"deep:{name}:raises:{type(e).__name__}", {"depth": d})
+                return
+            if got is not exp and got != exp:
+                rec.fail(f"deep:{name}", {"depth": d, "got": repr(got)[:80], "exp": repr(exp)[:80]})
+
+        q("depth", n.depth, d)
+        q("calc_depth", n.calc_depth, d)
+        q("parent", lambda: n.parent, chain[d - 2] if d > 1 else None)
+        q("get_top", n.get_top, chain[0])
+        q("is_top", n.is_top, d == 1)
+        q("len(get_parent_list)", lambda: len(n.get_parent_list()), d - 1)
+        q("get_parent_list[0]", lambda: (n.get_parent_list(add_self=True) or [None])[0], chain[0])
+        q("get_parent_list(bottom_up)[0]", lambda: n.get_parent_list(add_self=True, bottom_up=True)[0], n)
+        q("up(1)", lambda: n.up(1), chain[d - 2] if d > 1 else tree.system_root)
+        q("up(depth)", lambda: n.up(d), tree.system_root)
+        q("is_descendant_of(top)", lambda: n.is_descendant_of(chain[0]), d > 1)
+        q("top.is_ancestor_of", lambda: chain[0].is_ancestor_of(n), d > 1)
+        q("get_common_ancestor(mid)", lambda: n.get_common_ancestor(chain[(d - 1) // 2]), chain[(d - 1) // 2])
+        q("path-count", lambda: n.path.count("/"), d)
+        q("get_index", n.get_index, 0)
+        q("is_first_sibling", n.is_first_sibling, True)
+        q("is_last_sibling", n.is_last_sibling, width == 0)
+        q("len(get_siblings)", lambda: len(n.get_siblings()), width)
+        q("has_children", n.has_children, d < depth)
+        q("is_leaf", n.is_leaf, d == depth)
+    rec.evals += ev
+
+
+def deep_cases(tier):
+    yield {"depth": 1200, "width": 0, "probe": [0, 1, 600, 1100, 1199]}
+    yield {"depth": 1100, "width": 1, "probe": [0, 5, 999, 1099]}
+    if tier == "thorough":
+        yield {"depth": 3000, "width": 0, "probe": [0, 1500, 2999]}
+
+
 @st.composite
 def history_cases(draw, tier):
     from vlib import gen_ops
@@ -270,5 +334,6 @@ def history_cases(draw, tier):
 PARTS = [
     Part("after-history", run_after_history, strategy=history_cases, n={"quick": 800, "thorough": 40000}),
     Part("exhaustive", run, enum=enum_cases),
+    Part("deep-chain", run_deep_chain, enum=deep_cases),
     Part("random-clones-eqsiblings", run, strategy=lambda tier: hyp_cases(tier), n={"quick": 400, "thorough": 60000}),
 ]
